@@ -51,6 +51,21 @@ theorem unVal_spec (u : UnOp) (a : V) : unVal u a = .ok (unSpec u a) := by
   | none =>
     cases u <;> pyf_simp [unSpec]
 
+/-- Clipping a rational to the optional bounds (lower bound first, as `Clipper.apply` does). -/
+def clampQ (lo hi : Option Rat) (x : Rat) : Rat :=
+  let y := match lo with | some l => max x l | none => x
+  match hi with | some h => min y h | none => y
+
+/-- NaN-strict clip. -/
+def clipSpec (lo hi : Option Rat) : V → V
+  | some x => some (clampQ lo hi x)
+  | none => none
+
+/-- `Clipper.apply` never raises, propagates NaN whatever bounds are configured, and clips finite values. -/
+theorem clipVal_spec (lo hi : Option Rat) (a : V) : clipVal lo hi a = .ok (clipSpec lo hi a) := by
+  cases a <;> cases lo <;> cases hi <;>
+    pyf_simp [clipSpec, clampQ] <;> grind
+
 /-- The value of the tree under the strict semantics. -/
 def specEval (zf : Nat → Bool) (env : Env) : Ast → V
   | .metric n => fetch (zf n) (env n)
